@@ -670,6 +670,37 @@ func (w *worker) checkAccessors(c *selCase, text string, m Mode, kinds string, r
 			w.viol("C13", "get-after-set", text, before, fmt.Sprintf("result %d: Get() after Set = %s", i, snap(g)), kinds, raw)
 			continue
 		}
+		// Set with a CONTAINER of the kind the location holds now (a caller replacing a sub-document)
+		if cur, okc := atLoc(c.Doc.ToGo(m), ev.Loc); okc {
+			var cont interface{}
+			switch cur.(type) {
+			case []interface{}:
+				cont = []interface{}{"SENTINEL-LIST"}
+			case map[string]interface{}:
+				cont = map[string]interface{}{"SENTINEL": 1.0}
+			}
+			if cont != nil {
+				doc2 := c.Doc.ToGo(m)
+				if r2 := safeCall(pr.F, doc2); r2.Panic == nil && r2.Err == nil && len(r2.Vals) == len(c.Res.Vals) {
+					if a2, ok2 := r2.Vals[i].(jsonpath.Accessor); ok2 && a2.Set != nil {
+						var p2 interface{}
+						func() {
+							defer func() { p2 = recover() }()
+							a2.Set(cont)
+						}()
+						w.count("C13:container-sets", 1)
+						if p2 != nil {
+							w.viol("C13", "set-panics", text, before, fmt.Sprintf("Set(%s) through result %d (%s): %v", snap(cont), i, locString(ev.Loc), p2), kinds, raw)
+							continue
+						}
+						if got, want2 := snap(doc2), snap(putLoc(c.Doc.ToGo(m), ev.Loc, cont)); got != want2 {
+							w.viol("C13", "set-wrote-elsewhere", text, before, fmt.Sprintf("Set(%s) through result %d (%s): document is %s, want %s", snap(cont), i, locString(ev.Loc), got, want2), kinds, raw)
+							continue
+						}
+					}
+				}
+			}
+		}
 		// Get is live: update the map entry / array element directly
 		parent, _ := atLoc(doc, ev.Loc[:len(ev.Loc)-1])
 		last := ev.Loc[len(ev.Loc)-1]
